@@ -169,6 +169,79 @@ def check_case(ctx, case, rng):
         judge_input(ctx, case, cfgd, cfg, T, inp, (used, model.last_data_byte(mask)))
 
 
+def direct_types(ctx, rng, reps):
+    """Scalars, enums, arrays and unions parsed directly (not as a structure field): every cut point and a fault at
+    every read call."""
+    for rep in range(reps):
+        for endian in "<>":
+            cs = lib.load(engine.DIRECT_TEXT, endian, False, rng.random() < 0.5)
+            cfg = model.Cfg(endian, False)
+            for name, node, getter in engine.direct_kinds():
+                T = getter(cs)
+                v = model.random_value(node, rng, cfg)
+                raw, mask = model.dump(node, v, cfg)
+                want = lib.nan_clean(model.clean(model.parse(node, raw, 0, cfg)[0]))
+                ctx.cell("direct-types")
+
+                def run(stream):
+                    try:
+                        return ("ok", lib.nan_clean(lib.norm(T(stream), node)))
+                    except SpinWatchdog:
+                        return ("spin", None)
+                    except Exception as e:  # noqa: BLE001
+                        return ("err", e)
+
+                full = raw + b"\xA5\x5A"
+                base = run(RecordingStream(full))
+                if base != ("ok", want):
+                    ctx.violation("direct", "direct-type-baseline-differs-from-model",
+                                  {"type": name, "endian": endian, "raw": raw.hex(), "got": repr(base)[:200],
+                                   "want": repr(want)[:200]})
+                    continue
+                for k in range(len(raw)):
+                    ctx.evaluation(("direct-cut", name, endian, raw.hex(), k))
+                    for mk in (lambda d: RecordingStream(d), None):
+                        r = run(mk(raw[:k])) if mk else None
+                        if r is None:
+                            try:
+                                r = ("ok", lib.nan_clean(lib.norm(T(raw[:k]), node))) if not (
+                                    name.startswith("char[8]") and k == 8) else ("err", None)
+                            except Exception as e:  # noqa: BLE001
+                                r = ("err", e)
+                        if r[0] == "ok":
+                            ctx.violation("direct", "direct-type-returns-a-value-from-truncated-input",
+                                          {"type": name, "endian": endian, "raw": raw.hex(), "cut": k, "got": repr(r[1])[:200]})
+                        elif r[0] == "spin":
+                            ctx.violation("direct", "direct-type-spins-on-empty-reads", {"type": name, "cut": k})
+                        elif r[1] is not None and not isinstance(r[1], EOFError):
+                            ctx.violation("direct", f"direct-type-truncation-raises-{type(r[1]).__name__}-not-EOFError",
+                                          {"type": name, "endian": endian, "raw": raw.hex(), "cut": k})
+                        else:
+                            ctx.event("direct_cut_EOFError")
+                rec = RecordingStream(full)
+                run(rec)
+                for j in range(len(rec.reads())):
+                    for kind in ("empty", "half", "raise"):
+                        fs = FaultyStream(full, 0, j, kind)
+                        r = run(fs)
+                        if fs.fired is None or (kind != "raise" and fs.fired[2] == fs.fired[3]):
+                            continue
+                        ctx.evaluation(("direct-fault", name, endian, raw.hex(), j, kind))
+                        ctx.event(f"direct_faults:{kind}")
+                        if r[0] == "ok" and (kind == "raise" or r[1] != want):
+                            ctx.violation("direct", "direct-type-fabricates-or-swallows-under-fault",
+                                          {"type": name, "endian": endian, "raw": raw.hex(), "fault": (j, kind),
+                                           "got": repr(r[1])[:200], "want": repr(want)[:200]})
+                        elif r[0] == "ok":
+                            ev = fs.reads()[j]
+                            start = ev[2] + fs.fired[3]
+                            if any(mask[p] for p in range(start, min(len(mask), ev[2] + fs.fired[2]))):
+                                ctx.violation("direct", "direct-type-value-although-read-was-short-on-data",
+                                              {"type": name, "endian": endian, "raw": raw.hex(), "fault": (j, kind)})
+                if run(RecordingStream(full)) != ("ok", want):
+                    ctx.violation("direct", "direct-type-residue-after-failures", {"type": name, "endian": endian})
+
+
 def gen_opts(rng, thorough):
     o = dict(dyn_unions=rng.random() < 0.3, max_len=3)
     if thorough:
@@ -177,6 +250,8 @@ def gen_opts(rng, thorough):
 
 
 def run(ctx):
+    if ctx.shard % 8 == 5:
+        direct_types(ctx, ctx.rng("direct"), 2 if not ctx.thorough else 30)
     for i in range(N_CASES[ctx.tier]):
         if ctx.out_of_time():
             break
